@@ -10,6 +10,7 @@ import (
 	"go/types"
 	"sort"
 	"strings"
+	"sync"
 
 	"golang.org/x/tools/go/ssa"
 )
@@ -314,11 +315,14 @@ func (pr *Program) dynTargets(call *ssa.Call) []*ssa.Function {
 }
 
 var closureTargetsMemo []*ssa.Function
+var closureOnce sync.Once
 
 func (pr *Program) closureTargets() []*ssa.Function {
-	if closureTargetsMemo != nil {
-		return closureTargetsMemo
-	}
+	closureOnce.Do(func() { pr.computeClosureTargets() })
+	return closureTargetsMemo
+}
+
+func (pr *Program) computeClosureTargets() {
 	seen := map[*ssa.Function]bool{}
 	for _, f := range pr.Funcs {
 		for _, b := range f.Blocks {
@@ -339,7 +343,6 @@ func (pr *Program) closureTargets() []*ssa.Function {
 	sort.Slice(closureTargetsMemo, func(i, j int) bool {
 		return pr.FuncIDs[closureTargetsMemo[i]] < pr.FuncIDs[closureTargetsMemo[j]]
 	})
-	return closureTargetsMemo
 }
 
 // boundTarget returns the method a bound-method wrapper forwards to (or f itself).
